@@ -29,6 +29,8 @@ impl<const N: usize> WakerArray<N> {
 
     /// Access the `Readiness`.
     pub(crate) fn readiness(&mut self) -> MutexGuard<'_, ReadinessArray<N>> {
+        #[cfg(feature = "fc-verif")]
+        crate::utils::verif::register(&self.readiness);
         self.readiness.as_ref().lock().unwrap()
     }
 }
